@@ -9,11 +9,12 @@ open Qryn Qryn.Sql Qryn.Prof Qryn.Confine
 def sels? (s : String) : Option (List (Selector × Bool)) :=
   Driver.C17.allSome ((Driver.C17.parseList s).map Driver.C17.parseSelector)
 
-/-- the global and key/value conditions `getMatchers` makes of a selector list -/
-def conds? (s : String) : Option (List PCond × List PCond) := do
+/-- what `getMatchers` makes of a selector list (global conditions, key/value conditions, `kvRequired`); the selectors come
+    as `eq|ne|re|nre:<hex name>:<hex value>[:e]`, `:e` = Go's `regexp` finds the anchored pattern in the empty string (the
+    answer `acceptsEmpty` gets; `Driver.C17.greOf` makes the `gre` of `Prof.plan` of these flags) -/
+def conds? (s : String) : Option PQuery := do
   let ss ← sels? s
-  let q ← Prof.plan (Driver.C17.greOf ss) "" [] [] (ss.map (·.1))
-  some (q.globals, q.kvs)
+  Prof.plan (Driver.C17.greOf ss) "" [] [] (ss.map (·.1))
 
 def bytesList? (s : String) : Option (List Bytes) := (Driver.C17.parseList s).mapM ofHex
 
@@ -35,24 +36,24 @@ def handle : List String → Option String
     let (c, rest) ← ctx? args
     match kind, rest with
     | "mergeprofiles", [fp, main] => do
-      let (g, k) ← conds? fp
-      let (mg, _) ← conds? main
-      some (out c (mergeProfiles c g k mg))
+      let q ← conds? fp
+      let m ← conds? main
+      some (out c (mergeProfiles c q m.globals))
     | "mergetraces", [tu, fp, main] => do
-      let (g, k) ← conds? fp
-      let (mg, _) ← conds? main
-      some (out c (mergeTraces c (← ofHex tu) g k mg))
+      let q ← conds? fp
+      let m ← conds? main
+      some (out c (mergeTraces c (← ofHex tu) q m.globals))
     | "selectseries", [tu, avg, step, gb, fp, main] => do
-      let (g, k) ← conds? fp
-      let (mg, _) ← conds? main
-      let labels := getLabels c (← bytesList? gb) g k mg
-      some (out c (selectSeries c (← ofHex tu) (avg = "1") (← step.toInt?) labels mg))
+      let q ← conds? fp
+      let m ← conds? main
+      let labels := getLabels c (← bytesList? gb) q m.globals
+      some (out c (selectSeries c (← ofHex tu) (avg = "1") (← step.toInt?) labels m.globals))
     | "series", [labels, sl] => do
       let ls ← bytesList? labels
       if sl = "NOSEL" then some (out c (planSeries c ls none))
       else do
-        let (g, k) ← conds? sl
-        some (out c (planSeries c ls (some (g, k))))
+        let q ← conds? sl
+        some (out c (planSeries c ls (some q)))
     | "labelsunion", [col, label, scripts] => do
       let l : Option Bytes ← if label = "NONE" then some none else (ofHex label).map some
       let ps ← (scripts.splitOn "|").mapM conds?
@@ -63,8 +64,8 @@ def handle : List String → Option String
       let u := seriesUnion c (← bytesList? labels) ps
       some s!"{hexOut u.render} {unionConfined lokiCfg (winProf c) u} {profOk c}"
     | "analyze", [sl] => do
-      let (g, k) ← conds? sl
-      some (out c (analyzeQuery c g k))
+      let q ← conds? sl
+      some (out c (analyzeQuery c q))
     | "labelnames", [] => some (out c (labelsNoSel c "key" none))
     | "labelvalues", [l] => do some (out c (labelsNoSel c "val" (some (← ofHex l))))
     | _, _ => none
